@@ -145,6 +145,9 @@ def run_real(case, max_steps=12000):
     return fut
   world.submit = submit
 
+  # a managed thread that blocks on a real (unmanaged) primitive would hang the run: fail loudly instead
+  import faulthandler
+  faulthandler.dump_traceback_later(240, exit=True)
   enabled_rec, state = [], {}
   sched = shim.Scheduler(make_chooser(case['sched'], enabled_rec, state), max_steps=max_steps)
   _CUR.clear()
@@ -170,7 +173,9 @@ def run_real(case, max_steps=12000):
       def client(i, p):
         got = []
         out[i] = dict(yielded=got, outcome=None, running=True)
-        cl = courier_utils.CourierClient(addr, iterate_batch_size=p['batch'])
+        # one CourierClient object per client thread (the class is a singleton per configuration): in inline mode
+        # a handler runs while the caller holds its client's (real, unmanaged) state lock
+        cl = courier_utils.CourierClient(addr, iterate_batch_size=p['batch'], heartbeat_threshold_secs=180 + i)
         _KEEP.append(cl)
         task = courier_utils.GeneratorTask.new(lazy_fns.trace(make_source)(i))
         rq = _queue.SimpleQueue()
@@ -226,6 +231,7 @@ def run_real(case, max_steps=12000):
       except shim.SchedulerError as e:
         outcome, err = 'schedule_rejected', str(e)
   finally:
+    faulthandler.cancel_dump_traceback_later()
     world.submit = orig_submit
     logging.disable(logging.NOTSET)
   left = state.get('left', [])
